@@ -104,9 +104,12 @@ theorem Tcb.shift_wl2 (h1 : s.state ≠ .SynSent) (h2 : s.state ≠ .SynReceived
 @[simp] theorem Tcb.shift_headerBuilder (q : Seq) :
     (s.shift ka kb).headerBuilder q = s.headerBuilder q := rfl
 
+/-- `fin_pending` reads the state and the queued text only -/
+@[simp] theorem Tcb.shift_finPending : (s.shift ka kb).finPending = s.finPending := rfl
+
 @[simp] theorem Tcb.shift_isFinAcked : (s.shift ka kb).isFinAcked = s.isFinAcked := by
   unfold Tcb.isFinAcked
-  rw [Tcb.shift_nxt, Tcb.shift_una, beq_shift]
+  rw [Tcb.shift_finPending, Tcb.shift_nxt, Tcb.shift_una, beq_shift]
 
 end proj
 
